@@ -4,8 +4,10 @@
     Model: Model/Pbcmpl.v (marshal/Marshal, ReadHeader, Unmarshal as repaired by
     /repo 815cf27 — io.ReadAll(io.LimitReader(r, bodySize)) —, newHeader, the
     little-endian header layout, verStr, Size, HeaderSize; Go's io.ReadFull,
-    io.ReadAll, io.LimitedReader; a reader = ANY list of non-empty chunks plus a
-    terminal condition; a writer = a script of responses).
+    io.ReadAll, io.LimitedReader; a reader = ANY finite list of chunks plus a
+    terminal condition — [chunks_ok cs]: empty chunks, i.e. Reads returning (0, nil),
+    are allowed anywhere except as the very last chunk, where they would be the
+    terminal condition delivered alone —; a writer = a script of responses).
     Specification: Spec/PbcmplSpec.v ([frame] = 16-byte NUL-padded version, le64 32,
     le64 |body|, body; [spec_Unmarshal] on the flat byte string).
     The body codec (proto.Marshal / proto.Unmarshal / proto.Size of the message
@@ -16,7 +18,8 @@
     premise about the codec.  All statements are unbounded in payload length, number
     of frames, number and sizes of chunks; Go's int64 range appears as the hypothesis
     "stream shorter than 2^63 bytes".  [fuel] is the loop bound of the executable
-    model; any value >= |stream| + 2 (the protocol uses exactly that) is enough.
+    model; any value >= |stream| + number of chunks + 2 (the protocol uses exactly that) is
+    enough.
     [term_ok]: a reader that reports a non-EOF error together with the very last
     byte of the body makes io.ReadAll fail although the frame is complete; every
     other reader (in particular every reader that ends with io.EOF, with or without
@@ -29,31 +32,35 @@ From Low Require Import Model.PbcmplWalk Spec.PbcmplWalkSpec Lib.Val Run.PbcmplO
 Import ListNotations.
 Open Scope Z_scope.
 
-(** io.ReadFull over ANY chunking: returns the first [min] bytes of the flat stream
-    (all of it when shorter), leaves exactly the rest, and reports nil / io.EOF (nothing
-    read) / io.ErrUnexpectedEOF / the reader's own error *)
+(** io.ReadFull over ANY finite reader script — any list of chunks, empty chunks (Reads
+    that return (0, nil)) included, no condition at all on the list: returns the first
+    [min] bytes of the flat stream (all of it when shorter), leaves exactly the rest, and
+    reports nil / io.EOF (nothing read) / io.ErrUnexpectedEOF / the reader's own error *)
 Theorem C06_ReadFull_any_chunking : forall cs t min fuel,
-  chunks_ok cs -> 0 <= min -> (length cs + 2 <= fuel)%nat ->
+  0 <= min -> (length cs + 2 <= fuel)%nat ->
   exists cs',
     ReadFull cread fuel (cs, t) min
       = Some (firstn (Z.to_nat min) (concat cs),
               (if zlen (concat cs) <? min then Some (end_err t (zlen (concat cs)) EEOF) else None),
               (cs', t))
     /\ concat cs' = skipn (Z.to_nat min) (concat cs)
-    /\ chunks_ok cs'.
+    /\ (chunks_ok cs -> chunks_ok cs')
+    /\ (length cs' <= length cs)%nat.
 Proof. exact ReadFull_cread. Qed.
 Print Assumptions C06_ReadFull_any_chunking.
 
-(** io.ReadAll(io.LimitReader(r, n)) over ANY chunking, for every buffer growth policy *)
+(** io.ReadAll(io.LimitReader(r, n)) over ANY chunking ([chunks_ok]: the chunk list does
+    not END with an empty chunk; empty chunks elsewhere are allowed), for every buffer
+    growth policy *)
 Theorem C06_ReadAll_limited_any_chunking : forall grow,
   (forall c, 0 < c -> c < grow c) ->
   forall t fuel cs n,
-  chunks_ok cs -> (length (concat cs) + 1 <= fuel)%nat ->
+  chunks_ok cs -> (length cs + length (concat cs) + 1 <= fuel)%nat ->
   exists cs' n',
     ReadAll (limited_read cread) grow fuel ((cs, t), n)
       = Some (firstn (Z.to_nat n) (concat cs), rall_err (concat cs) n t, ((cs', t), n'))
     /\ concat cs' = skipn (Z.to_nat n) (concat cs)
-    /\ chunks_ok cs'.
+    /\ chunks_ok cs' /\ (length cs' <= length cs)%nat.
 Proof. exact ReadAll_limited_cread. Qed.
 Print Assumptions C06_ReadAll_limited_any_chunking.
 
@@ -94,7 +101,7 @@ Theorem C06_unmarshal : forall (Msg : Type) (enc : Msg -> list Z) (dec : list Z 
   bytes_ok ver -> bytes_ok (enc m) -> bytes_ok rest ->
   chunks_ok cs -> concat cs = frame ver (enc m) ++ rest -> zlen (concat cs) < 2 ^ 63 ->
   term_ok t (enc m) rest ->
-  (length (concat cs) + 2 <= fuel)%nat ->
+  (length cs + length (concat cs) + 2 <= fuel)%nat ->
   exists cs',
     Unmarshal dec cread grow fuel (cs, t)
       = Some (32 + zlen (enc m), ver, None, Some m, (cs', t))
@@ -113,7 +120,7 @@ Theorem C06_unmarshal_anyver : forall (Msg : Type) (enc : Msg -> list Z) (dec : 
   bytes_ok ver -> bytes_ok (enc m) -> bytes_ok rest ->
   chunks_ok cs -> concat cs = frame ver (enc m) ++ rest -> zlen (concat cs) < 2 ^ 63 ->
   term_ok t (enc m) rest ->
-  (length (concat cs) + 2 <= fuel)%nat ->
+  (length cs + length (concat cs) + 2 <= fuel)%nat ->
   exists cs',
     Unmarshal dec cread grow fuel (cs, t)
       = Some (32 + zlen (enc m), strip_nul ver, None, Some m, (cs', t))
@@ -252,11 +259,7 @@ Proof.
        split; [apply bytes_okb_ok; vm_compute; reflexivity|vm_compute; reflexivity]]]|]).
     apply Forall_nil. }
   split.
-  { apply Forall_forall. intros c Hc.
-    assert (H : forallb (fun c => 0 <? zlen c) (chunks_of [1; 7; 64] (wire_of (k_enc 1)
-      [(Some [49; 46; 50; 46; 51], [1; 2; 3]); (None, []); (Some (repeat 120 16), repeat 7 200)])) = true)
-      by (vm_compute; reflexivity).
-    rewrite forallb_forall in H. apply Z.ltb_lt. apply H. exact Hc. }
+  { vm_compute. discriminate. }
   split; [vm_compute; reflexivity|]. split; [vm_compute; reflexivity|].
   split; [apply Nat.ltb_lt; vm_compute; reflexivity|].
   split; [vm_compute; reflexivity|]. split; [vm_compute; reflexivity|].
